@@ -31,7 +31,10 @@ var c03Events = []string{"req-ok", "req-500", "req-refused", "req-abort", "clock
 	"slow-11s-ok", "slow-61s-timeout", "slow-3601s-500", "slow-11s-abort", "req-503-retry-after-a-day",
 	// the body of a 200 arrives in three pieces with the backend silent in between: for 29 s
 	// (less than backend_read, the whole body must arrive) and for 31 s (the proxy must give up)
-	"body-silent-29s", "body-silent-31s"}
+	"body-silent-29s", "body-silent-31s",
+	// the same with pieces that fill the proxy's 32 KiB copy buffer exactly, one byte less and
+	// one byte more: where in the body the silence falls must not matter
+	"body-silent-31s-after-32768-byte-pieces", "body-silent-31s-after-32767-byte-pieces", "body-silent-31s-after-32769-byte-pieces", "body-silent-29s-after-32768-byte-pieces"}
 
 // with active checks: one probe round in which every backend answers the probe that way
 var c03ProbeEvents = []string{"probes-ok", "probes-500", "probes-refuse", "probes-garbage", "probes-eof", "probes-timeout"}
@@ -76,17 +79,17 @@ func (in *c03Inst) Step(ev int) *vh.HViol {
 		in.out = "probed"
 		return nil
 	}
-	mode := []string{"ok", "500", "refuse", "abort", "", "", "garbage", "eof", "timeout", "103+500", "slow11+ok", "slow61+timeout", "slow3601+500", "slow11+abort", "500ra", "pieces29000ms+ok", "pieces31000ms+ok"}[ev]
+	mode := []string{"ok", "500", "refuse", "abort", "", "", "garbage", "eof", "timeout", "103+500", "slow11+ok", "slow61+timeout", "slow3601+500", "slow11+abort", "500ra", "pieces29000ms+ok", "pieces31000ms+ok", "pieces31000msx32768+ok", "pieces31000msx32767+ok", "pieces31000msx32769+ok", "pieces29000msx32768+ok"}[ev]
 	res := in.k.requestMode("10.0.0.1", mode)
 	in.out = fmt.Sprintf("%d/%v", res.Status, res.Aborted)
-	switch mode {
-	case "pieces29000ms+ok":
-		if res.Status == 200 && (res.Aborted || !strings.HasPrefix(res.Body, "ok from ")) {
-			return &vh.HViol{Key: "C03/seq/patient-backend-cut-off", What: fmt.Sprintf("a backend that is silent for 29 s between the pieces of its answer (backend_read is 30 s) had its answer cut off: body %q aborted=%v", res.Body, res.Aborted)}
+	switch {
+	case strings.HasPrefix(mode, "pieces29000ms"):
+		if want := 10; res.Status == 200 && (res.Aborted || !strings.HasPrefix(res.Body, "ok from ") || (strings.Contains(mode, "x") && len(res.Body) < 3*32767) || len(res.Body) < want) {
+			return &vh.HViol{Key: "C03/seq/patient-backend-cut-off", What: fmt.Sprintf("a backend that is silent for 29 s between the pieces of its answer (backend_read is 30 s) had its answer cut off: %d bytes of body (%.20q...) aborted=%v (%s)", len(res.Body), res.Body, res.Aborted, mode)}
 		}
-	case "pieces31000ms+ok":
-		if res.Status == 200 && !res.Aborted && strings.HasPrefix(res.Body, "ok from ") {
-			return &vh.HViol{Key: "C03/seq/silent-backend-waited-for", What: fmt.Sprintf("a backend that was silent for 31 s in the middle of its answer (backend_read is 30 s) was waited for: the client got the whole body %q after more than a minute", res.Body)}
+	case strings.HasPrefix(mode, "pieces31000ms"):
+		if res.Status == 200 && !res.Aborted && strings.HasPrefix(res.Body, "ok from ") && (!strings.Contains(mode, "x") || len(res.Body) >= 3*32767) {
+			return &vh.HViol{Key: "C03/seq/silent-backend-waited-for", What: fmt.Sprintf("a backend that was silent for 31 s in the middle of its answer (backend_read is 30 s) was waited for: the client got the whole body (%d bytes, %.20q...) after more than a minute (%s)", len(res.Body), res.Body, mode)}
 		}
 	}
 	if res.Status == 0 && !res.Aborted {
